@@ -56,11 +56,23 @@ def describe_arg(a):
 # ---------------------------------------------------------------------------
 # materialising arguments
 
+_dict_order = [0]
+
+
 def _conv_scalar(a, conv):
     if isinstance(a, str):
         return a
     if isinstance(a, dict):
-        return {k: conv(v) for k, v in a.items()}
+        # a mapping argument (transformation matrix) means the same in any insertion order of its keys:
+        # rotate through row-major, reversed and column-major insertion orders
+        _dict_order[0] += 1
+        keys = list(a)
+        mode = _dict_order[0] % 3
+        if mode == 1:
+            keys = keys[::-1]
+        elif mode == 2:
+            keys = sorted(keys, key=lambda k: (k[1:], k[:1]))
+        return {k: conv(a[k]) for k in keys}
     if isinstance(a, (list, tuple)):
         return [conv(v) for v in a]
     return conv(a)
@@ -174,6 +186,30 @@ def arg_gain(op, args):
             except Exception:
                 pass
     return g
+
+
+ILL_CONDITIONED_AT_COLLINEAR = ("deltaangle",)
+
+
+def cond_gain(op, self_l, args, tol, f64=False):
+    """extra factor on the tolerance where the *definition* is ill-conditioned: the angle between two vectors is
+    arccos of a quotient, whose error grows like 1/sin(angle) and saturates at sqrt(rounding) for collinear vectors"""
+    if op.name not in ILL_CONDITIONED_AT_COLLINEAR:
+        return mpf(1)
+    other = next((a for a in args if isinstance(a, LVec)), None)
+    if other is None:
+        return mpf(1)
+    a = self_l.f64()[1] if f64 else self_l.rv
+    b = other.f64()[1] if f64 else other.rv
+    try:
+        c = R.cos_between(R.project(a, 3), R.project(b, 3))
+    except Exception:
+        return mpf(1)
+    s2 = 1 - c * c
+    cap = 1 / mpmath.sqrt(mpf(tol))
+    if s2 <= 0:
+        return cap
+    return max(mpf(1), min(1 / mpmath.sqrt(s2), cap))
 
 
 def rel_error(op, got, exp, unit, gain=mpf(1)):
